@@ -1,8 +1,8 @@
 (* C13 -- watcher registration converges to the configured path set.  Proofs: Fs/FsProofs.v, Fs/ConfigWatch.v
    PARTIAL in one respect: what the real notify backends do with a registered path (inotify etc.) is outside
    the model; the recording watcher of the harness implements notify's watch/unwatch contract. *)
-From Coq Require Import List NArith Bool.
-From WX Require Import Fs.FsWorker Fs.FsProofs Fs.ConfigWatch.
+From Coq Require Import List NArith Bool String.
+From WX Require Import Fs.FsWorker Fs.FsProofs Fs.ConfigWatch Fs.ConfigRace.
 Import ListNotations.
 Open Scope N_scope.
 
@@ -52,3 +52,19 @@ Theorem C13_lost_change_refuted :
   let s := crun false [Change; Next] in mode s = Waiting /\ seen s <> gen s.
 Proof. exact lost_change_refuted. Qed.
 Print Assumptions C13_lost_change_refuted.
+
+(* the same at the granularity of the individual synchronisation operations of ConfigWatched::next and
+   Config::signal_change, whose order is translated from config.rs on every run: for every interleaving with any number of
+   concurrent signal_change calls, a worker that sleeps in next() with no notification in flight has seen the latest change *)
+Theorem C13_no_lost_wakeup : forall ls, asleep prog (run prog ls) -> rseen (run prog ls) = cnt (run prog ls).
+Proof. exact no_lost_wakeup. Qed.
+Print Assumptions C13_no_lost_wakeup.
+
+Theorem C13_signal_change_order : Gen.ConfigNext_gen.signal_ops = ["inc"; "notify"]%string.
+Proof. exact signal_shape. Qed.
+Print Assumptions C13_signal_change_order.
+
+Theorem C13_racy_order_refuted :
+  let s := run racy [LN; LN; LN; LN; LN; LN; LAgain; LN; LI; LT; LN; LN; LN] in asleep racy s /\ rseen s <> cnt s.
+Proof. exact racy_order_refuted. Qed.
+Print Assumptions C13_racy_order_refuted.
